@@ -140,8 +140,9 @@ class Fragment(AbstractApplication):
             glib.idle_add(self._agent.send_bundle, fctr)
 
         # internal action, not delete
+        # the fragments are sent in place of this bundle
         ctr.route = None
-        ctr.sender = None
+        ctr.sender = lambda data: None
         return True
 
     def _reassemble(self, ctr):
